@@ -33,7 +33,12 @@ def record_lengths(rep, dev, tier, rng):
             n = rng.randint(2, 4)
             specs = [shapes.gen_ctor(rng, code, "mixed", True, 1 + 2 * k, 2 + 3 * k) for k in range(n)]
             rng.shuffle(specs)
-            wcases.append(C.whist_case(True, 0, [("w", sp) for sp in specs]))
+            calls = [("w", sp) for sp in specs]
+            if rep_i == 1:
+                # a shape of another type offered in between (refused): it must leave no byte behind
+                other = shapes.gen_ctor(rng, rng.choice([t for t in shapes.ALL_CODES if t != code]), "small")
+                calls.insert(rng.randint(1, len(calls)), ("w", other))
+            wcases.append(C.whist_case(True, 0, calls))
             metas.append(specs)
     # records whose content exceeds 65 535 and 131 071 words (a word count kept in 16 or 17 bits would wrap), each followed by a
     # small record
